@@ -16,20 +16,34 @@ from . import common
 
 LAWS = ["const", "log", "sqrt", "linear3", "linear7", "squared", "exp"]
 TPS_GRID = [1, 2, 3, 7, 10, 60, 100, 1000, 10**4, 10**5]
-CPUS = [1, 2, 3, 4, 5, 7, 8, 16, 64]
+CPUS = [1, 2, 3, 4, 5, 7, 8, 16, 64, F(1, 2), F(3, 2), F(5, 2), F(7, 2), F(13, 2)]      # a scheduler may ask for fractional cpus
 
 
 def divisor(law, c):
     return {"const": 1, "linear3": min(c, 3), "linear7": min(c, 7), "squared": c * c, "exp": (2 ** c if c < 4 else 16)}[law]
 
 
+def rational_scale(law, c):
+    """scale(law, cpus) as a Fraction when it is rational, else None (sqrt always; exp for half-integers below 4)."""
+    c = F(c)
+    if law in ("const", "linear3", "linear7", "squared"):
+        return F(divisor(law, c))
+    if law == "exp":
+        if c >= 4:
+            return F(16)
+        return F(2 ** int(c)) if c.denominator == 1 else None
+    return None
+
+
 def cpu_ticks_exact(law, c, base: F, tps: int) -> int:
     if base == 0:
         return 0
-    if law in ("const", "linear3", "linear7", "squared", "exp"):
-        return math.floor(base * tps / divisor(law, c))
-    if law == "sqrt":
-        x = (base * tps) ** 2 / c
+    rs = rational_scale(law, c)
+    if rs is not None:
+        return math.floor(base * tps / rs)
+    if law in ("sqrt", "exp"):
+        sq = F(c) if law == "sqrt" else F(2) ** (2 * int(F(c)) + 1)          # scale^2
+        x = (base * tps) ** 2 / sq
         return math.isqrt(x.numerator // x.denominator)
     getcontext().prec = 60
     v = Decimal(base.numerator) / Decimal(base.denominator) * tps / (Decimal(c).ln() + 1)
@@ -55,7 +69,9 @@ def gen_case(rng: random.Random):
             # CPU: aim at T (+ offset) ticks on this many cpus
             T = rng.choice([0, 0, 1, 2, 3, 5, 17, rng.randint(0, budget)])
             off = F(0) if rng.random() < 0.06 else rng.choice([F(1, 4), F(1, 2), F(999, 1000)])
-            scale = {"log": math.log(cpus) + 1, "sqrt": math.sqrt(cpus)}.get(law) or divisor(law, cpus)
+            if law == "log" and F(cpus).denominator != 1:
+                law = "const"                  # the ln table covers whole cpu counts only
+            scale = {"log": math.log(cpus) + 1, "sqrt": math.sqrt(cpus)}.get(law) or float(divisor(law, float(cpus)))
             base = dec((T + off) * F(scale).limit_denominator(10**6) / tps)
             if base > 1000:        # keep numerators below 2^31 for the JSON/TLC integers
                 base = dec(F(rng.randint(0, 10**6), 1000))
@@ -122,7 +138,8 @@ def run_case(case, tid):
         jops.append({"segs": js})
         prev = o
     p.runtime_status()
-    pool = ResourcePool(pool_id=0, cpu_pool=cpus, ram_pool=float(ram * 2 + 1), ticks_per_second=tps)
+    cpus_real = int(cpus) if F(cpus).denominator == 1 else float(cpus)
+    pool = ResourcePool(pool_id=0, cpu_pool=cpus_real, ram_pool=float(ram * 2 + 1), ticks_per_second=tps)
     total = sum(g["tio"] + g["tcpu"] for o in jops for g in o["segs"]) + len(ops) + 5
     want = set(range(1, 4)) | {max(1, total // 2)}
     for o in jops:          # phase boundaries +-1
@@ -133,7 +150,7 @@ def run_case(case, tid):
     obs = {"done": [0] * len(ops), "endt": 0, "kind": "raise", "exc": "", "ost": [], "mem": []}
     ndone = 0
     try:
-        a = Assignment(ops, cpus, float(ram), Priority.BATCH_PIPELINE, 0, p.pipeline_id)
+        a = Assignment(ops, cpus_real, float(ram), Priority.BATCH_PIPELINE, 0, p.pipeline_id)
         res = pool.run_one_tick([], [a])
         t = 1
         while True:
@@ -155,7 +172,7 @@ def run_case(case, tid):
     except BaseException as e:  # noqa: BLE001
         obs["kind"], obs["exc"] = "raise", f"{type(e).__name__}: {str(e)[:80]}"
     obs["ost"] = [o.state().value for o in ops]
-    return {"tid": tid, "tps": tps, "cpus": cpus, "ram": int(ram * 1000), "ops": jops, "obs": obs}
+    return {"tid": tid, "tps": tps, "c2": int(F(cpus) * 2), "ram": int(ram * 1000), "ops": jops, "obs": obs}
 
 
 def _chunk(args):
